@@ -13,6 +13,7 @@ pub mod c05;
 pub mod c06;
 pub mod c07;
 pub mod c08;
+pub mod c09;
 pub mod c10;
 pub mod c12;
 pub mod c13;
@@ -42,6 +43,7 @@ pub fn lookup(id: &str) -> Option<Prop> {
         "C06" => Prop { id: "C06", run: c06::run, rule: c06::rule, exhaustive: none, assumptions: no_assumptions },
         "C07" => Prop { id: "C07", run: c07::run, rule: c07::rule, exhaustive: none, assumptions: no_assumptions },
         "C08" => Prop { id: "C08", run: c08::run, rule: c08::rule, exhaustive: none, assumptions: no_assumptions },
+        "C09" => Prop { id: "C09", run: c09::run, rule: c09::rule, exhaustive: none, assumptions: no_assumptions },
         "C10" => Prop { id: "C10", run: c10::run, rule: c10::rule, exhaustive: none, assumptions: no_assumptions },
         "C12" => Prop { id: "C12", run: c12::run, rule: c12::rule, exhaustive: |_| Some(true), assumptions: no_assumptions },
         "C13" => Prop { id: "C13", run: c13::run, rule: c13::rule, exhaustive: |_| Some(true), assumptions: no_assumptions },
